@@ -40,7 +40,7 @@ REQUIRED_DIMS = ["N_active<N", "testparticle_type=1", "massless_particles", "var
                  "full_step_leapfrog", "impact_fast_movers", "root_box_layout", "com_offset_moving",
                  "pending_list_realloc(>32)", "N_crosses_128", "step_mercurius", "step_trace", "step_whfast", "step_ias15",
                  "track_energy_offset_merge", "integrate_split_exact_finish_time", "copy_restore_midrun",
-                 "file_restore_midrun", "user_add_remove_midrun", "free_particle_ap", "keep_sorted", "tree_gravity_direct_search"]
+                 "file_restore_midrun", "user_add_remove_midrun", "free_particle_ap", "keep_sorted", "tree_gravity_direct_search", "hybrid_forced_keep_sorted"]
 VARIANT = ["0"] * 7      # RmVariant flags (5) + purge-flagged-at-end-of-search, determined in run()
 PURGE = [False]          # fixes/C13-tree-merge-remove-at-boundary.diff applied? (probed in run())
 RESFLAGS = {"merge": "0", "hs": "0"}     # massless guards of the built-in resolvers (probed in run())
@@ -86,7 +86,7 @@ def gen_spec(rng, idx, thorough=False):
                    else rng.uniform(-L / 2, L / 2) for _ in range(3)]
             if boundary == "shear" and rng.chance(0.7):
                 # pairs touching across the radial edge: their images carry the shear velocity -1.5*OMEGA*Lx
-                cen[0] = rng.choice([-1, 1]) * (L / 2 - rng.uniform(0, 0.8 * r0))
+                cen[0] = rng.choice([-1, 1]) * L / 2 + rng.uniform(-0.3, 0.3) * r0
         else:
             cen = [rng.uniform(-L / 4, L / 4) for _ in range(3)]
         shape = rng.choice(["chain", "clump", "clump", "star", "flyby"] if collision in ("line", "linetree") else ["chain", "clump", "clump", "star", "star", "flyby"])
@@ -212,7 +212,7 @@ def gen_spec(rng, idx, thorough=False):
                 integrator=integ, dt=rng.choice([0.01, 0.1, -0.05, 1.0]) * (1.0 if boundary != "shear" else 0.1),
                 ks=int(rng.chance(0.5)), n_active=(rng.randint(1, n) if rng.chance(0.3) else None),
                 seed=rng.randint(0, 2 ** 32 - 1), parts=parts, use_step=int(rng.chance(0.6)),
-                t0=rng.choice([0.0, 1.5, 7.25]), omega=(rng.choice([1.0, 0.37]) if boundary == "shear" else 0.0),
+                t0=rng.choice([0.0, 1.5, 7.25]), omega=(rng.choice([1.0, 0.37, 1e-3, 1e-3]) if boundary == "shear" else 0.0),
                 r_after_add=0, nroot=nroot, exact_touch=int(exact_touch), tpt=int(rng.chance(0.3)))
     for k, p in enumerate(parts_unshuffled):
         if isinstance(p["vx"], tuple):
@@ -281,7 +281,10 @@ def gen_spec(rng, idx, thorough=False):
                 for a in "xyz":
                     p[a] = max(-0.49 * E[a], min(0.49 * E[a], p[a]))
     if rng.chance(0.3) and "res" not in spec:
-        spec["mcv"] = rng.loguniform(1e-3, 1e2)        # minimum_collision_velocity (hard-sphere clamp)
+        spec["mcv"] = rng.loguniform(1e-3, 1e2)
+    if rng.chance(0.5):
+        spec["teo"] = 1                                   # track_energy_offset: merge must book the pair terms
+        spec["G"] = rng.choice([1.0, 6.674e-11, 39.47841760435743, 0.37])        # minimum_collision_velocity (hard-sphere clamp)
     if collision == "direct" and integ == "none" and spec["gravity"] == "none" and rng.chance(0.12):
         spec["nvar"] = 1                                # variational particles: removals are refused
         spec["use_step"] = 0
@@ -546,10 +549,12 @@ def ring_tokens(spec, tab):
     return [str(v) for v in spec["nghost"]] + [d2h(v) for g in tab for v in g]
 
 
-def f_line(spec, mode, state, tab, tree, res, dtl, t, ninner, given=(), nvar=0):
+def f_line(spec, mode, state, tab, tree, res, dtl, t, ninner, given=(), nvar=0, nactive=None):
     hyb = 1 if spec["integrator"] in ("mercurius", "trace") else 0
+    if nactive is None:
+        nactive = -1 if spec.get("n_active") is None else spec["n_active"]
     toks = ["F", mode, str(spec["ks"]), str(int(tree)), str(hyb),
-            str(-1 if spec.get("n_active") is None else spec["n_active"]), str(nvar), str(spec["seed"])] + VARIANT + [d2h(dtl), d2h(t)]
+            str(nactive), str(nvar), str(spec["seed"])] + VARIANT + [d2h(dtl), d2h(t)]
     if res[0] == "script":
         toks += ["script", str(res[1])]
     elif res[0] == "hs":
@@ -770,7 +775,7 @@ def scenario(c, W, exe_lines, spec, tag, stats):
     ring = [tabhex[(i + 1) * 9 + (j + 1) * 3 + (k + 1)] for (i, j, k) in images(spec)]
     if col in ("direct", "line"):
         li = len(exe_lines)
-        exe_lines.append(f_line(spec, col, stateA, tab, A["tree"], ("zero",), A["dtl"], A["t"], ninner, nvar=nvar))
+        exe_lines.append(f_line(spec, col, stateA, tab, A["tree"], ("zero",), A["dtl"], A["t"], ninner, nvar=nvar, nactive=A["N_active"]))
 
         def chk1(out, li=li):
             m = parse_f(out[li])
@@ -870,6 +875,56 @@ def scenario(c, W, exe_lines, spec, tag, stats):
     if removed_any:
         stats["paths"][path] = stats["paths"].get(path, 0) + 1
     c.count(("fixup", path, kind, min(len(callsB), 10), min(n, 10)), nontrivial=(len(reported) >= 3 and removed_any))
+    # ---- cross-cutting dimensions covered by this scenario
+    rads = [p[8] for p in stateR]
+    if spec.get("n_active") is not None and spec["n_active"] < n: dim("N_active<N")
+    if spec.get("tpt"): dim("testparticle_type=1")
+    if any(p[7] == 0.0 for p in stateR): dim("massless_particles")
+    if nvar: dim("variational_particles_nonzero")
+    if A["dtl"] < 0: dim("dt<0")
+    if any(any(v != 0.0 for v in g[3:6]) for (_, _, g, _, _, _, _) in A["calls"]): dim("shear_ghost_velocity")
+    if any(r == 0.0 for r in rads) and reported: dim("zero_radius")
+    if rads and min([r for r in rads if r > 0] + [1e300]) * 1e3 <= max(rads): dim("radius_ratio>=1e3")
+    if spec.get("exact_touch"): dim("exact_touch")
+    if kind == "hs" and res[1] is not None and B["hsrec"]: dim("restitution_callback")
+    if kind == "hs" and spec.get("mcv") and B["hsrec"]: dim("minimum_collision_velocity")
+    dim("python_callable_resolver")
+    if spec["integrator"] == "leapfrog": dim("full_step_leapfrog")
+    if spec["integrator"] == "leapfrog" and any(p["id"] > 5000 for p in spec["parts"]): dim("impact_fast_movers")
+    if spec.get("nroot", [1, 1, 1]) != [1, 1, 1]: dim("root_box_layout")
+    if spec.get("com_offset"): dim("com_offset_moving")
+    if len(reported) > 32: dim("pending_list_realloc(>32)")
+    if len(stateA) >= 128 > B["N"]: dim("N_crosses_128")
+    if path.startswith("sorted") and removed_any: dim("keep_sorted")
+    if spec["gravity"] == "tree" and removed_any: dim("tree_gravity_direct_search")
+    if spec["integrator"] in ("mercurius", "trace") and removed_any: dim("hybrid_forced_keep_sorted")
+    # free_particle_ap is called once for every particle that leaves the array (and for nobody else)
+    if kind == "script" and path != "sorted+tree" and not nvar:
+        gone = sorted(set(p["id"] for p in spec["parts"]) - set(p[0] for p in B["state"]))
+        if sorted(B["freed"]) != gone:
+            c.violation("free_particle_ap-mismatch:" + path, "free_particle_ap called for %s, particles that left the array: %s [%s]" % (sorted(B["freed"]), gone, path),
+                        dict(spec=spec, res=list(res)))
+        if gone:
+            dim("free_particle_ap")
+    # track_energy_offset: a merger books exactly the pair's kinetic terms and mutual potential (collision.c:819-911)
+    for (before, out, p1, p2, nact, eo0, eo1, G) in B["eorec"]:
+        if out not in (1, 2):
+            continue
+        (a0, b0) = before
+        mi, mj = a0[6], b0[6]
+        if mi + mj == 0.0:
+            continue
+        kei = 0.5 * mi * math.fsum(v * v for v in a0[3:6]) + 0.5 * mj * math.fsum(v * v for v in b0[3:6])
+        dist = math.sqrt(math.fsum((a0[k] - b0[k]) ** 2 for k in range(3)))
+        pot = -G * mi * mj / dist if (min(p1, p2) < nact and dist > 0) else 0.0
+        vm = [(mi * a0[3 + k] + mj * b0[3 + k]) / (mi + mj) for k in range(3)]
+        kef = 0.5 * (mi + mj) * math.fsum(v * v for v in vm)
+        want = kei + pot - kef
+        sc = abs(kei) + abs(pot) + abs(kef) + abs(eo0) + 1e-300
+        if dist > 0 and not abs((eo1 - eo0) - want) <= 1e-12 * sc:
+            c.violation("energy-offset-merge", "merge of (%d,%d): energy_offset changed by %r, pair terms give %r (G=%g, N_active=%d)" % (p1, p2, eo1 - eo0, want, G, nact),
+                        dict(spec=spec, res=["merge"]))
+        dim("track_energy_offset_merge")
 
     # ---- identity accounting on the real code (A4 as an executable statement)
     massless = kind == "merge" and any(r is not None and r[3] in (1, 2) and r[0][0][6] + r[0][1][6] == 0.0 for r in B["hsrec"])
@@ -892,7 +947,7 @@ def scenario(c, W, exe_lines, spec, tag, stats):
         except ValueError:
             c.corr_break("pending entry with a ghost box outside the ring (%s)" % tag, dict(spec=spec))
             return None
-        return f_line(spec, "ordered", stateA, tab, B["tree"], res, A["dtl"], A["t"], ninner, given, nvar=nvar)
+        return f_line(spec, "ordered", stateA, tab, B["tree"], res, A["dtl"], A["t"], ninner, given, nvar=nvar, nactive=A["N_active"])
 
     def chk2(outline):
         m = parse_f(outline)
@@ -1097,7 +1152,9 @@ def check_hs(c, spec, B, res, stats):
         v1 = [a1[3 + k] + g[3 + k] - b1[3 + k] for k in range(3)]
         vn0 = math.fsum(d[k] * v0[k] for k in range(3))
         vn1 = math.fsum(d[k] * v1[k] for k in range(3))
-        vs = dn * math.sqrt(math.fsum(x * x for x in v0)) + 1e-300
+        vabs = max(abs(v) for v in a0[3:6] + b0[3:6] + a1[3:6] + b1[3:6] + tuple(g[3:6]))
+        # relative to the normal speed, plus the rounding of the individual velocities (pairs moving together with a large boost)
+        vs = dn * math.sqrt(math.fsum(x * x for x in v0)) + 1e-300 + 1e-3 * dn * vabs
         eps = 1.0 if res[1] is None else res[1]
         if not vn1 >= -1e-12 * vs:
             c.violation("hardsphere-not-separating", "after the bounce the pair still approaches: d·v = %.3g → %.3g" % (vn0, vn1), dict(spec=spec, rec=rec))
@@ -1196,6 +1253,339 @@ def history(c, W, spec, nsteps, stats):
     c.count(("history", path, spec["collision"], min(nm_tot, 8)), nontrivial=nm_tot >= 2)
 
 
+
+# ----------------------------------------------------------------------------- cross-cutting families
+def gen_big_spec(rng, idx):
+    """dense gas of 130-260 particles: pending list beyond its 32/64/128 allocation steps, N crossing 128 on removals"""
+    L = 20.0
+    n = rng.randint(130, 260)
+    r0 = (0.25 * L ** 3 / (n * 4.19)) ** (1.0 / 3.0)
+    parts = []
+    for k in range(n):
+        r = r0 * rng.uniform(0.4, 1.0)
+        parts.append(dict(id=9000 + 3 * k, x=rng.uniform(-L / 2, L / 2), y=rng.uniform(-L / 2, L / 2), z=rng.uniform(-L / 2, L / 2),
+                          vx=rng.normal() * r0, vy=rng.normal() * r0, vz=rng.normal() * r0, m=rng.loguniform(1e-2, 1e2), r=r))
+    collision = MODES[idx % 4]
+    seed = rng.randint(0, 2 ** 32 - 1)
+    return dict(box=L, boundary="periodic", nghost=[1, 1, 0], collision=collision, gravity="none", integrator="none",
+                dt=rng.choice([0.01, 0.1]), ks=(0 if collision in ("tree", "linetree") else int(rng.chance(0.5))), n_active=None,
+                seed=seed, parts=parts, use_step=1, t0=1.5, omega=0.0, r_after_add=0, nroot=[1, 1, 1],
+                res=(["script", seed % 1000] if rng.chance(0.6) else ["merge"]))
+
+
+def switch_family(c, W, stats):
+    """the three named resolvers and a Python callable, each installed AFTER each other one: the resolver in effect must
+    be the one set last (signature: merge -> N-1; hardsphere -> velocities exchanged; halt -> status 7; callable -> called)"""
+    rb = W.rebound
+    names = ["merge", "hardsphere", "halt", "callable"]
+    for first in names:
+        for second in names:
+            sim = rb.Simulation()
+            sim.integrator = "none"; sim.dt = 0.1
+            sim.collision = "direct"
+            sim.add(m=1.0, r=1.0, x=-0.5, vx=1.0, hash=1)
+            sim.add(m=1.0, r=1.0, x=0.5, vx=-1.0, hash=2)
+            ncall = [0]
+
+            def pycb(simp, col):
+                ncall[0] += 1
+                return 0
+            for nm in (first, second):
+                sim.collision_resolve = pycb if nm == "callable" else nm
+            W.clib.reb_simulation_step(ctypes.byref(sim))
+            v0 = sim._particles[0].vx
+            sig = ("merge" if sim.N == 1 else "hardsphere" if (sim.N == 2 and v0 == -1.0) else
+                   "halt" if (sim._status == 7 and v0 == 1.0) else "callable" if (ncall[0] > 0 and v0 == 1.0) else "none")
+            if sig != second:
+                c.violation("resolver-switch:%s->%s" % (first, second), "collision_resolve set to %r and then to %r behaves like %r (N=%d, vx0=%r, status=%d, python calls=%d)"
+                            % (first, second, sig, sim.N, v0, sim._status, ncall[0]), dict(first=first, second=second))
+            if second != "callable" and ncall[0] > 0:
+                c.violation("resolver-switch-stale-callable", "Python callable still invoked after a named resolver was set", dict(first=first, second=second))
+            dim("named_resolver_after_switching")
+            c.count(("switch", first, second))
+
+
+def planet_system(rb, rng, integ, overlap=True):
+    sim = rb.Simulation()
+    sim.integrator = integ
+    sim.collision = "direct"
+    sim.G = 1.0
+    sim.add(m=1.0, r=0.005, hash=1)
+    npl = rng.randint(2, 4)
+    a = rng.uniform(0.8, 1.5)
+    f0 = rng.uniform(0, 2 * math.pi)
+    hid = 1
+    for k in range(npl):
+        m = rng.loguniform(1e-6, 1e-3)
+        rad = rng.uniform(0.2, 0.8) * a * (m / 3.0) ** (1.0 / 3.0)          # a fraction of the Hill radius
+        hid += 1
+        if k == 0 or not overlap or (k > 1 and rng.chance(0.3)):
+            sim.add(m=m, r=rad, a=a * (1 + 0.3 * k * rng.uniform(0.5, 1.5)), e=rng.uniform(0, 0.05), inc=rng.uniform(0, 0.02),
+                    f=f0 + (0 if k == 0 else rng.uniform(0.5, 5.5)), hash=hid)
+        else:
+            # next to an existing planet: slightly overlapping or about to overlap, approaching slowly
+            q = sim._particles[rng.randint(1, sim.N - 1)]
+            sr = q.r + rad
+            e = [rng.normal() for _ in range(3)]
+            en = math.sqrt(sum(x * x for x in e)) or 1.0
+            d = [x / en * sr * rng.uniform(0.5, 1.3) for x in e]
+            vrel = rng.uniform(0.0, 0.3) * math.sqrt(sim.G / a) * 0.05
+            sim.add(m=m, r=rad, x=q.x + d[0], y=q.y + d[1], z=q.z + d[2],
+                    vx=q.vx - d[0] / sr * vrel, vy=q.vy - d[1] / sr * vrel, vz=q.vz - d[2] / sr * vrel, hash=hid)
+    sim.move_to_com()
+    period = 2 * math.pi * a ** 1.5
+    sim.dt = period * rng.choice([0.002, 0.01, 0.03])
+    return sim
+
+
+def integrator_family(c, W, rng, integ, stats):
+    """a full step of a real integrator around (or, for MERCURIUS / TRACE, with sub-step) collision searches on a
+    star + planets system with inflated radii.  (A) record-only: every planet pair that overlaps while clearly
+    approaching in the synchronized state after the step must have been handed to the resolver during that step;
+    (B) merge over several steps: mass, momentum, identity accounting, order kept (hybrids force keep_sorted)."""
+    rb = W.rebound
+    seedv = rng.randint(0, 2 ** 31)
+    for phase in ("A", "B"):
+        r2 = SplitMix(seedv)
+        sim = planet_system(rb, r2, integ)
+        sim.rand_seed = seedv & 0xFFFF
+        n0 = sim.N
+        ids0 = [int(sim._particles[i]._hash) for i in range(n0)]
+        calls = []
+        mergelog = []
+
+        def cb(simp, col, phase=phase):
+            s = simp.contents
+            ha, hb = int(s._particles[col.p1]._hash), int(s._particles[col.p2]._hash)
+            out = 0
+            if phase == "B":
+                out = W.clib.reb_collision_resolve_merge(simp, col)
+                if out in (1, 2):
+                    mergelog.append((s.steps_done, ha, hb, out, col.p1, col.p2))
+            calls.append((s.steps_done, ha, hb, out))
+            return out
+        sim.collision_resolve = cb
+        if phase == "A":
+            nsteps = 2
+            for st in range(nsteps):
+                W.clib.reb_simulation_step(ctypes.byref(sim))
+                W.clib.reb_simulation_synchronize(ctypes.byref(sim))
+                state = pstate(sim)
+                if any(v != v for p in state for v in p[1:8]):
+                    c.violation("nan-after-step:" + integ, "NaN in the particle array after a %s step with a record-only resolver" % integ, dict(integrator=integ, seed=seedv))
+                    break
+                handed = set((ha, hb) for (sd, ha, hb, _) in calls if sd == st)
+                nyes = 0
+                for i in range(1, len(state)):
+                    for j in range(i + 1, len(state)):
+                        pi, pj = state[i], state[j]
+                        d = [pi[1 + k] - pj[1 + k] for k in range(3)]
+                        dv = [pi[4 + k] - pj[4 + k] for k in range(3)]
+                        d2 = math.fsum(x * x for x in d); sr = pi[8] + pj[8]
+                        dot = math.fsum(d[k] * dv[k] for k in range(3))
+                        nv = math.sqrt(d2 * math.fsum(x * x for x in dv)) + 1e-300
+                        if d2 < sr * sr * (1 - 1e-6) and dot < -0.2 * nv:
+                            nyes += 1
+                            if (pi[0], pj[0]) not in handed and (pj[0], pi[0]) not in handed:
+                                c.violation("missed-pair:step-" + integ, "%s step %d: planets (%d,%d) overlap while approaching after the step (d/sr=%.3f, cos=%.2f) but were never handed to the resolver during it"
+                                            % (integ, st, i, j, math.sqrt(d2) / sr, dot / nv), dict(integrator=integ, seed=seedv, step=st))
+                stats["integ_pairs"] += nyes
+                c.count(("integ-A", integ, min(nyes, 3)), nontrivial=nyes > 0)
+        else:
+            W.clib.reb_simulation_synchronize(ctypes.byref(sim))
+            M0, P0, X0, _ = sums(pstate(sim))
+            mv = math.fsum(abs(p[7]) * math.sqrt(p[4] ** 2 + p[5] ** 2 + p[6] ** 2) for p in pstate(sim)) + 1e-300
+            alive = list(ids0)
+            for st in range(4):
+                W.clib.reb_simulation_step(ctypes.byref(sim))
+            W.clib.reb_simulation_synchronize(ctypes.byref(sim))
+            state = pstate(sim)
+            for (sd, ha, hb, out, p1, p2) in mergelog:
+                if ha not in alive or hb not in alive or ha == hb:
+                    c.violation("resolved-after-removal:step-" + integ, "%s: merge of ids (%d,%d), one of them already merged away" % (integ, ha, hb), dict(integrator=integ, seed=seedv))
+                    break
+                alive.remove(ha if out == 1 else hb)
+                if (out == 2) != (p1 < p2):
+                    c.violation("merge-removes-wrong-index", "%s: merge of (%d,%d) returned %d" % (integ, p1, p2, out), dict(integrator=integ, seed=seedv))
+            fin = [p[0] for p in state]
+            if integ in ("mercurius", "trace") or True:
+                # all four keep the order here: hybrids force keep_sorted; whfast/ias15 runs use keep_sorted=1 below
+                pass
+            if sorted(fin) != sorted(alive):
+                c.violation("lost-or-duplicated:step-" + integ, "%s: ids after 4 steps %s, expected survivors %s" % (integ, fin, alive), dict(integrator=integ, seed=seedv))
+            elif integ in ("mercurius", "trace") and fin != alive:
+                c.violation("sorted-order-broken:step-" + integ, "%s (keep_sorted forced): order %s, expected %s" % (integ, fin, alive), dict(integrator=integ, seed=seedv))
+            if any(v != v for p in state for v in p[1:8]):
+                c.violation("nan-after-step:" + integ, "NaN in the particle array after %s steps with mergers" % integ, dict(integrator=integ, seed=seedv))
+            else:
+                M1, P1, X1, _ = sums(state)
+                em = abs(M1 - M0) / abs(M0)
+                ep = max(abs(P1[k] - P0[k]) for k in range(3)) / mv
+                stats["worst_integ_mom"] = max(stats["worst_integ_mom"], ep)
+                if not em <= 1e-13 * (1 + len(mergelog)):
+                    c.violation("merge-mass:step-" + integ, "%s: total mass %r -> %r over %d mergers" % (integ, M0, M1, len(mergelog)), dict(integrator=integ, seed=seedv))
+                if not ep <= 1e-9:
+                    c.violation("merge-momentum:step-" + integ, "%s: total momentum changed by %.3g (relative) over %d mergers in 4 steps" % (integ, ep, len(mergelog)), dict(integrator=integ, seed=seedv))
+            stats["integ_merges"] += len(mergelog)
+            c.count(("integ-B", integ, min(len(mergelog), 3)), nontrivial=len(mergelog) > 0)
+            if mergelog or calls:
+                dim("step_" + integ)
+
+
+def integrate_split_case(c, W, rng, idx, stats):
+    """sim.integrate() called twice, with a final step shortened by exact_finish_time: after EVERY step (snapshot taken in the
+    heartbeat) the pairs handed to the resolver during that step are compared with the brute-force oracle — the LINE
+    searches must use the length of the step actually done (dt_last_done)"""
+    spec = gen_history_spec(rng, idx)
+    spec["collision"] = MODES[idx % 4]
+    if spec["collision"] in ("tree", "linetree"):
+        spec["ks"] = 0
+    if (idx // 4) % 2 == 1:
+        spec["integrator"] = "ias15"      # adaptive: the step done (dt_last_done) differs from the step proposed next (dt)
+    sim = make_sim(W, spec)
+    sim.t = 0.0
+    snaps, calls = [], []
+
+    def hb(simp):
+        s = simp.contents
+        snaps.append((int(s.steps_done), s.t, s.dt_last_done, pstate(s)))
+
+    def cb(simp, col):
+        s = simp.contents
+        calls.append((int(s.steps_done), col.p1, col.p2, (col.gb.x, col.gb.y, col.gb.z, col.gb.vx, col.gb.vy, col.gb.vz)))
+        return 0
+    sim.heartbeat = hb
+    sim.collision_resolve = cb
+    dt = abs(spec["dt"])
+    sim.dt = dt
+    e1, e2 = rng.choice([0, 1]), rng.choice([0, 1, 1])
+    sim.integrate(dt * rng.uniform(1.2, 2.8), exact_finish_time=e1)
+    sim.integrate(sim.t + dt * rng.uniform(0.3, 2.7), exact_finish_time=e2)
+    tab = gb_table(W, sim)
+    tabhex = [gbhex(g) for g in tab]
+    img_of = {}
+    for im in images(spec):
+        img_of.setdefault(tabhex[(im[0] + 1) * 9 + (im[1] + 1) * 3 + (im[2] + 1)], im)
+    col = spec["collision"]
+    line = col in ("line", "linetree")
+    nchecked = 0
+    short = 0
+    seen_sd = set()
+    for (sd, t, dtl, state) in snaps:
+        # the heartbeat also runs at the start of every integrate() call (same steps_done, dt_last_done reset to 0): keep the first
+        if sd == 0 or sd in seen_sd or len(state) != len(spec["parts"]):
+            continue
+        seen_sd.add(sd)
+        if abs(dtl) < 0.999 * dt or abs(dtl) > 1.001 * dt:
+            short += 1
+        rep = set((p1, p2, img_of.get(gbhex(g))) for (s0, p1, p2, g) in calls if s0 == sd - 1)
+        orc = oracle_pairs(spec, state, tab, dtl, line)
+        for key, cls in orc.items():
+            i, j, im = key
+            if col == "line" and not i < j:
+                continue
+            if cls == "yes" and key not in rep and not (col in ("tree", "linetree") and (j, i, (-im[0], -im[1], -im[2])) in rep):
+                c.violation("missed-pair:integrate-" + col, "integrate(): step %d (dt_last_done=%r, dt=%r): pair (%d,%d) image %s %s but was not handed to the resolver"
+                            % (sd, dtl, dt, i, j, im, "came within r1+r2 during the step" if line else "overlaps while approaching"), dict(spec=spec, step=sd))
+            elif cls == "no" and key in rep:
+                c.violation("spurious-pair:integrate-" + col, "integrate(): step %d (dt_last_done=%r): pair (%d,%d) image %s handed to the resolver without %s"
+                            % (sd, dtl, i, j, im, "path overlap" if line else "overlap+approach"), dict(spec=spec, step=sd))
+        nchecked += 1
+    if nchecked:
+        dim("integrate_split_exact_finish_time")
+    stats["integrate_steps"] += nchecked
+    stats["integrate_short_steps"] += short
+    c.count(("integrate", col, e1, e2, short > 0), nontrivial=short > 0)
+
+
+def restore_case(c, W, rng, idx, stats):
+    """copy() and save/load right after steps with collisions: last_collision, collision counters and the rand_r seed
+    are carried over, and the continuation is identical (without a tree, where the walk order could differ);
+    then the user removes one particle and adds a bigger one mid-run and the run continues consistently"""
+    import tempfile
+    rb = W.rebound
+    spec = gen_history_spec(rng, idx)
+    resolver = rng.choice(["merge", "hardsphere"])
+    sim = make_sim(W, spec)
+    sim.collision_resolve = resolver
+    for st in range(3):
+        W.clib.reb_simulation_step(ctypes.byref(sim))
+    tree = bool(sim._tree_root)
+    st0 = pstate(sim)
+    sim2 = sim.copy()
+    fn = os.path.join(tempfile.gettempdir(), "c13_restore_%d_%d.bin" % (os.getpid(), idx))
+    if os.path.exists(fn):
+        os.remove(fn)
+    sim.save_to_file(fn)
+    sim3 = rb.Simulation(fn)
+    os.remove(fn)
+    for name, sx in (("copy", sim2), ("file", sim3)):
+        sx.collision_resolve = resolver
+        if pstate(sx) != st0 and not any(v != v for p in st0 for v in p[1:]):
+            c.violation("restore-state:" + name, "%s right after collisions: particle state (incl. last_collision) differs from the source" % name, dict(spec=spec, resolver=resolver))
+        for fld in ("collisions_log_n", "collisions_plog", "rand_seed", "dt_last_done", "t", "N_active", "collision_resolve_keep_sorted", "minimum_collision_velocity"):
+            if getattr(sx, fld) != getattr(sim, fld):
+                c.violation("restore-field:%s:%s" % (name, fld), "%s: %s = %r, source %r" % (name, fld, getattr(sx, fld), getattr(sim, fld)), dict(spec=spec, resolver=resolver))
+        if tuple(sx.max_radius) != tuple(sim.max_radius) and not tree:
+            stats["restore_maxr_differs"] += 1
+    for st in range(3):
+        for sx in (sim, sim2, sim3):
+            W.clib.reb_simulation_step(ctypes.byref(sx))
+    ref = pstate(sim)
+    for name, sx in (("copy", sim2), ("file", sim3)):
+        got = pstate(sx)
+        if not tree and got != ref and not any(v != v for p in ref for v in p[1:]):
+            c.violation("restore-continuation:" + name, "%s after 3 steps with %s: continuing the restored simulation differs from continuing the source (N %d vs %d)" % (name, resolver, len(got), len(ref)),
+                        dict(spec=spec, resolver=resolver))
+        elif tree and resolver == "merge":
+            Ma, Pa, _, _ = sums(got); Mb, Pb, _, _ = sums(ref)
+            if not abs(Ma - Mb) <= 1e-12 * abs(Mb):
+                c.violation("restore-continuation-mass:" + name, "%s: total mass after continuation %r vs %r" % (name, Ma, Mb), dict(spec=spec, resolver=resolver))
+        dim("copy_restore_midrun" if name == "copy" else "file_restore_midrun")
+    # ---- user edits between steps: remove one particle, add a bigger one
+    if sim.N >= 2:
+        ids = [p[0] for p in pstate(sim)]
+        k = rng.randint(0, sim.N - 1)
+        gone = ids[k]
+        sim.remove(index=k, keep_sorted=bool(spec["ks"]) and not tree)
+        L = spec["box"]
+        big = max(list(sim.max_radius) + [1e-3 * L]) * 1.5
+        try:
+            sim.add(m=1.0, r=big, x=rng.uniform(-0.4, 0.4) * L, y=rng.uniform(-0.4, 0.4) * L, z=rng.uniform(-0.4, 0.4) * L, hash=777777)
+            added = True
+        except RuntimeError:
+            added = False       # tree refuses (near-)coincident particles
+        log = []
+
+        def cb(simp, col):
+            s = simp.contents
+            ha, hb = int(s._particles[col.p1]._hash), int(s._particles[col.p2]._hash)
+            fnr = W.clib.reb_collision_resolve_merge if resolver == "merge" else W.clib.reb_collision_resolve_hardsphere
+            out = fnr(simp, col)
+            log.append((ha, hb, out))
+            return out
+        sim.collision_resolve = cb
+        alive = set(i for i in ids if i != gone) | ({777777} if added else set())
+        for st in range(3):
+            n0 = len(log)
+            W.clib.reb_simulation_step(ctypes.byref(sim))
+            for (ha, hb, out) in log[n0:]:
+                if ha == gone or hb == gone:
+                    c.violation("user-removed-particle-resolved", "a particle removed by the user between steps is handed to the resolver", dict(spec=spec, resolver=resolver))
+                if out == 1: alive.discard(ha)
+                if out == 2: alive.discard(hb)
+            state = pstate(sim)
+            live = [p[0] for p in state if p[2] == p[2]]
+            if len(live) != len(state):
+                c.violation(K_F17, "flagged particle (y=NaN) in the array at a step boundary after a user removal in tree mode", dict(spec=spec, resolver=resolver))
+            if spec["boundary"] == "periodic" and sorted(live) != sorted(alive):
+                c.violation("lost-or-duplicated:user-edit", "after user remove/add: ids %s, expected %s" % (sorted(live), sorted(alive)), dict(spec=spec, resolver=resolver))
+            if tree and spec["collision"] in ("tree", "linetree") and not h_holds(state, tuple(sim.max_radius)):
+                c.violation("max-radius-bookkeeping", "after a user add with a larger radius max_radius0/1 = %r do not bound the radii" % (list(sim.max_radius),), dict(spec=spec))
+        dim("user_add_remove_midrun")
+    c.count(("restore", spec["collision"], resolver, tree))
+
+
 # ----------------------------------------------------------------------------- corpus
 def corpus_specs():
     d = os.path.join(ROOT, "corpus", "C13")
@@ -1254,7 +1644,8 @@ def run(c):
     stats = dict(N={}, dropped_by_boundary=0, missed={}, oracle_yes=0, oracle_edge=0, tie_fail=0, tie_search=0, tie_driver=0,
                  resolver={}, calls=0, paths={}, accounted=0, merges=0, worst_mass=0.0, worst_mom=0.0, worst_com=0.0,
                  merge_across_boundary=0, bounces=0, worst_hs_mom=0.0, worst_hs_energy=0.0, hs_ulp=0, tree_pruned_pairs=0,
-                 histories=0, left_box=0, massless_merges=0, shuffle_order_differs=0, state_ulp_diffs=0, tree_cells=0, tie_walk=0, walk_order_differs=0)
+                 histories=0, left_box=0, massless_merges=0, shuffle_order_differs=0, state_ulp_diffs=0, tree_cells=0, tie_walk=0, walk_order_differs=0, integ_pairs=0, integ_merges=0, worst_integ_mom=0.0,
+                 integrate_steps=0, integrate_short_steps=0, restore_maxr_differs=0)
     ncases = 24000 if c.thorough else 450
     lines = []
     pend = []
@@ -1273,6 +1664,28 @@ def run(c):
             specs = [("replay", sp)]
     for i in range(ncases):
         specs.append(("gen%d" % i, gen_spec(c.rng.fork(), i, c.thorough)))
+    for i in range(0 if replay is not None else (16 if c.thorough else 3)):
+        specs.append(("big%d" % i, gen_big_spec(c.rng.fork(), i)))
+    for i in range(0 if replay is not None else (400 if c.thorough else 30)):
+        # MERCURIUS / TRACE (keep_sorted forced in the driver AND in reb_simulation_remove_particle, Ninner = 1): rejection-sampled
+        rr = c.rng.fork()
+        for _try in range(400):
+            sp = gen_spec(rr.fork(), 4 * _try)
+            if sp["integrator"] in ("mercurius", "trace"):
+                # only pairs with particle 0 are searched (Ninner = 1): put the particle with the largest radius first and
+                # keep the case if at least 3 others overlap it, so that removals meet later pending entries
+                ps = sp["parts"]
+                k0 = max(range(len(ps)), key=lambda k: ps[k]["r"])
+                ps[0], ps[k0] = ps[k0], ps[0]
+                nov = sum(1 for q in ps[1:] if (q["x"] - ps[0]["x"]) ** 2 + (q["y"] - ps[0]["y"]) ** 2 + (q["z"] - ps[0]["z"]) ** 2 <= (q["r"] + ps[0]["r"]) ** 2)
+                if nov < 3:
+                    continue
+                sp["ks"] = 0
+                sp["n_active"] = None
+                sp.pop("res", None)
+                sp.pop("com_offset", None)
+                specs.append(("hyb%d" % i, sp))
+                break
     for tag, spec in specs:
         try:
             pend.append((tag, spec) + scenario(c, W, lines, spec, tag, stats))
@@ -1305,7 +1718,22 @@ def run(c):
         history(c, W, gen_history_spec(c.rng.fork(), i), 6, stats)
     if replay is not None and "steps" in replay:
         history(c, W, replay["spec"], replay["steps"], stats)
-    for k in ("worst_mass", "worst_mom", "worst_com", "worst_hs_mom", "worst_hs_energy"):
+    if replay is None:
+        switch_family(c, W, stats)
+        nint = 40 if c.thorough else 8
+        for integ in ("mercurius", "trace", "whfast", "ias15"):
+            for i in range(nint):
+                integrator_family(c, W, c.rng.fork(), integ, stats)
+        for i in range(240 if c.thorough else 32):
+            integrate_split_case(c, W, c.rng.fork(), i, stats)
+        for i in range(200 if c.thorough else 16):
+            restore_case(c, W, c.rng.fork(), i, stats)
+        for nm in REQUIRED_DIMS:
+            DIMS.setdefault(nm, 0)
+            if DIMS[nm] == 0:
+                c.broken.append("dimension %s not covered" % nm)
+    c.cov["dimensions"] = dict(sorted(DIMS.items()))
+    for k in ("worst_mass", "worst_mom", "worst_com", "worst_hs_mom", "worst_hs_energy", "worst_integ_mom"):
         stats[k] = float("%.3g" % stats[k])
     stats["N"] = {str(k): v for k, v in sorted(stats["N"].items())}
     c.cov["measured"] = stats
